@@ -2,6 +2,7 @@ import MJ.Model.Slice
 import MJ.Model.PySlice
 import MJ.Model.Subscript
 import MJ.Model.SubKinds
+import MJ.Model.SubObj
 /-! Line driver for C09: `slice kind len a b c form` / `index kind len i form` → model and spec. -/
 open MJ MJ.Slice
 
@@ -117,6 +118,12 @@ def enumFrom {β : Type} (i : Nat) : List β → List (β × Nat)
   | [] => []
   | x :: xs => (x, i) :: enumFrom (i + 1) xs
 
+/-- the items of the harness objects `CE:<S|I>:<variant>:<n>`: the numbers `0..n`; names (`Str`) and
+    pairs (the key-value iterators) are shown by the harness as `1000 + i` / `2000 + i` -/
+def eoItems (variant : String) (n : Nat) : List Nat :=
+  let off := if variant = "str" then 1000 else if variant.startsWith "kv" || variant.startsWith "revkv" then 2000 else 0
+  (List.range n).map (· + off)
+
 def parseBase (spec : String) : Option (Val Nat) :=
   let (tag, arg) := splitTag spec
   match tag with
@@ -177,15 +184,18 @@ def parseBase (spec : String) : Option (Val Nat) :=
   | "CE" =>
     match arg.splitOn ":" with
     | [rp, variant, n] =>
-      n.toNat?.map fun n =>
-        if rp = "S" then .seq (List.range n)
-        else .iter (variant != "iterlo" && variant != "iterlow" && variant != "iternone") (List.range n)
+      match n.toNat? with
+      | some n =>
+        match harnessObj (rp == "S") variant (eoItems variant n) with
+        | some o => some (if rp = "S" then .seq (eoItems variant n) else .iter o.queryLen.isSome (eoItems variant n))
+        | none => none
+      | none => none
     | _ => none
   | _ => none
 
 /-- does the value of this spec enumerate through `Enumerator::RevIter`? -/
 def enumeratesRevIter (spec : String) : Bool :=
-  spec.startsWith "BS:" || spec.startsWith "LL:" || (spec.startsWith "CE:" && (spec.splitOn ":").getD 2 "" == "rev")
+  spec.startsWith "BS:" || spec.startsWith "LL:" || (spec.startsWith "CE:" && ["rev", "revlo", "revnone"].contains ((spec.splitOn ":").getD 2 ""))
 
 def parseVal (spec : String) : Option (Val Nat) :=
   let (tag, arg) := splitTag spec
@@ -395,6 +405,37 @@ def handle (f : List String) : String :=
       else if rel = "last" then s!"-~~{showGet (vmGetItem .lenient v (.num (.i64 (-1))))}"
       else "-~~-"
     | none => "bad-case"
+  | ["eo", rp, how, n, "s", a, b, c] =>
+    match n.toNat?, intVal a, intVal b, intVal c with
+    | some n, some a, some b, some c =>
+      match harnessObj (rp == "S") how (eoItems how n) with
+      | some o =>
+        match objSliceV o a b c with
+        | .panic => "panic"
+        | .ok (.error e) => showErr e
+        | .ok (.ok ys) => "iter:" ++ joinNats ys
+      | none => "bad-case"
+    | _, _, _, _ => "bad-case"
+  | ["eo", rp, how, n, "m"] =>
+    match n.toNat? with
+    | some n =>
+      match harnessObj (rp == "S") how (eoItems how n) with
+      | some o =>
+        match o.tryIter with
+        | some xs => "seq:" ++ joinNats xs
+        | none => "not-iterable"
+      | none => "bad-case"
+    | none => "bad-case"
+  | ["eo", rp, how, n, "i", k] =>
+    match n.toNat?, parseVal k with
+    | some n, some key =>
+      match harnessObj (rp == "S") how (eoItems how n) with
+      | some o =>
+        match objGetItem o key with
+        | some x => s!"elem:{x}"
+        | none => "undef"
+      | none => "bad-case"
+    | _, _ => "bad-case"
   | ["os", len, ops] =>
     match len.toNat? with
     | some len => runOnce (List.range len) (ops.splitOn ";") ""
@@ -425,7 +466,7 @@ def handle (line : String) : String :=
     match len.toNat?, parseChain suffix with
     | some len, some ops => s!"{case}\t{runChain true kind len ops}\t{runChain false kind len ops}"
     | _, _ => s!"{case}\tbad-case\tbad-case"
-  | "gs" :: _ | "gi" :: _ | "ga" :: _ | "long" :: _ | "mg" :: _ | "mr" :: _ | "os" :: _ =>
+  | "gs" :: _ | "gi" :: _ | "ga" :: _ | "long" :: _ | "mg" :: _ | "mr" :: _ | "os" :: _ | "eo" :: _ =>
     let r := Glue.handle (case.trimAscii.toString.splitOn " ")
     s!"{case}\t{r}\t-"
   | "meta" :: _ | "dv" :: _ | "ds" :: _ | "dr" :: _ | "pb" :: _ | "huge" :: _ | "cv" :: _ => s!"{case}\t-\t-"
